@@ -615,11 +615,16 @@ def abortAbove (last : Nat) : List Nat → State → State × List Frame
 def peerGoAway (st : State) (last : Nat) : State × List Frame :=
   abortAbove last (st.streams.map (·.id)) { st with goAway := true }
 
+/-- `bodyAllowedForStatus` (http2.go): a 1xx, 204 or 304 response never has a body -/
+def bodyAllowedForStatus (status : Nat) : Bool :=
+  !((decide (100 ≤ status) && decide (status ≤ 199)) || status == 204 || status == 304)
+
 /-- `processHeaders` / `handleResponse` / `processTrailers`. Before the final response:
 a block without `:status` is a stream error, an informational response is skipped (stream error
 when it carries END_STREAM or is the sixth one), anything else is the final response — its body
 is `noBody` when the stream ended or the request was HEAD, else `cs.bytesRemain` is the declared
-Content-Length. After the final response every HEADERS frame is a trailer block: connection
+Content-Length — unless the status never has a body (204, 304: `cs.bytesRemain = -1` since /repo
+5224b93, no Content-Length accounting; DATA on such a response is read like any other). After the final response every HEADERS frame is a trailer block: connection
 error unless it has END_STREAM and no pseudo-header. -/
 def peerResp (st : State) (id : Nat) (endStream : Bool) (status : Nat) (cl : Option Nat) :
     State × List Frame :=
@@ -635,7 +640,7 @@ def peerResp (st : State) (id : Nat) (endStream : Bool) (status : Nat) (cl : Opt
         else ({ st with streams := setStream st.streams { s with num1xx := s.num1xx + 1 } }, [])
       else
         (settle st { s with gotHeaders := true, noBody := endStream || s.head, peerEnd := endStream,
-                            bytesRemain := if endStream || s.head then none else cl }, [])
+                            bytesRemain := if endStream || s.head || !bodyAllowedForStatus status then none else cl }, [])
     else if status ≠ 0 ∨ !endStream then connError st
     else (settle st { s with peerEnd := true }, [])
 
